@@ -694,6 +694,7 @@ def run(ctx):
 
 
 SELFTEST = [
+    ('global-default-snapshot', 'pyerrors/obs.py', "                        getattr(self, kwarg_name)[e_name] = getattr(Obs, kwarg_name + '_global')", '                        getattr(self, kwarg_name)[e_name] = Obs._frozen[kwarg_name]', 'C03-D3'),
     ('variance-guard-eps', 'pyerrors/obs.py', "< 10 * np.finfo(float).tiny:", "< 1e-25:", 'C03-D8'),
     ('pair-count-cache', 'pyerrors/obs.py', "                gamma_div += self._calc_gamma(np.ones((self.shape[r_name])), self.idl[r_name], self.shape[r_name], w_max, fft, gapsize)", "                key_ = (self.idl[r_name][0], len(self.idl[r_name]), w_max)\n                if key_ not in Obs._div_cache:\n                    Obs._div_cache[key_] = self._calc_gamma(np.ones((self.shape[r_name])), self.idl[r_name], self.shape[r_name], w_max, fft, gapsize)\n                gamma_div += Obs._div_cache[key_]", None),
     ('pair-count-exact-zero', 'pyerrors/obs.py', "gamma_div[gamma_div < 1] = 1.0", "gamma_div[gamma_div == 0] = 1.0", 'C03-D8'),
